@@ -117,6 +117,10 @@ func (d mutDesc) String() string {
 		return fmt.Sprintf("insert %+q at offset %d", caseRunes[d.B], d.A)
 	case "case-line":
 		return fmt.Sprintf("line %d := %+q + its first %d bytes", d.A, caseRunes[d.C], d.B)
+	case "guided-set":
+		return fmt.Sprintf("set[%d]=%#02x (next to an occurrence of an extracted name/version)", d.A, d.B)
+	case "guided-delete":
+		return fmt.Sprintf("delete [%d:%d] (an occurrence of an extracted name/version)", d.A, d.B)
 	case "repack":
 		return "re-packed unchanged"
 	case "drop-entry", "duplicate-entry", "empty-entry":
@@ -133,7 +137,7 @@ func (d mutDesc) String() string {
 
 // enumerate calls fn for every mutant of seed in canonical order (simplest operator first). data is
 // only valid during the call. Returning false stops the enumeration. It returns the number of mutants visited.
-func enumerate(seed []byte, tier string, from int, fn func(seq int, d mutDesc, data []byte) bool) int {
+func enumerate(seed []byte, tier string, from int, anchors func() []string, fn func(seq int, d mutDesc, data []byte) bool) int {
 	b := boundsFor(tier)
 	n := len(seed)
 	seq := 0
@@ -342,7 +346,81 @@ func enumerate(seed []byte, tier string, from int, fn func(seq int, d mutDesc, d
 			}
 		}
 	}
+	// Output-guided stage (last, so that the numbering above never depends on it): for seeds too large for
+	// per-offset operators, the names and versions the extractor reported for the UNMUTATED seed say where
+	// the bytes it cares about live (the module list inside a 2 MB Go binary, ...). Around each occurrence of
+	// such a string: overwrite the bytes at its edges, at the edges of the printable run that holds it and
+	// the byte before that run (a length prefix or terminator in binary formats) with 00 / 01 / space / ff,
+	// and delete the occurrence.
+	if n > b.sigmaAll && anchors != nil {
+		for _, sp := range guidedSpans(seed, anchors()) {
+			for _, p := range sp.pos {
+				for _, c := range []byte{0x00, 0x01, ' ', 0xff} {
+					if seed[p] == c {
+						continue
+					}
+					if !emit(mutDesc{Op: "guided-set", A: p, B: int(c)}, func() []byte {
+						buf = append(buf[:0], seed...)
+						buf[p] = c
+						return buf
+					}) {
+						return seq
+					}
+				}
+			}
+			if !emit(mutDesc{Op: "guided-delete", A: sp.from, B: sp.to}, func() []byte {
+				buf = append(append(buf[:0], seed[:sp.from]...), seed[sp.to:]...)
+				return buf
+			}) {
+				return seq
+			}
+		}
+	}
 	return seq
+}
+
+type guidedSpan struct {
+	from, to int
+	pos      []int
+}
+
+// guidedSpans: at most 4 occurrences of each anchor (64 in total), in anchor order then offset order.
+func guidedSpans(seed []byte, anchors []string) []guidedSpan {
+	var out []guidedSpan
+	n := len(seed)
+	printable := func(c byte) bool { return c >= 0x20 && c <= 0x7e }
+	for _, a := range anchors {
+		if len(a) < 3 {
+			continue
+		}
+		off, cnt := 0, 0
+		for cnt < 4 && len(out) < 64 {
+			i := bytes.Index(seed[off:], []byte(a))
+			if i < 0 {
+				break
+			}
+			s, e := off+i, off+i+len(a)
+			off = e
+			cnt++
+			rs, re := s, e
+			for rs > 0 && printable(seed[rs-1]) && s-rs < 256 {
+				rs--
+			}
+			for re < n && printable(seed[re]) && re-e < 256 {
+				re++
+			}
+			seen := map[int]bool{}
+			var pos []int
+			for _, p := range []int{rs - 1, rs, s - 2, s - 1, s, e - 1, e, re - 1, re} {
+				if p >= 0 && p < n && !seen[p] {
+					seen[p] = true
+					pos = append(pos, p)
+				}
+			}
+			out = append(out, guidedSpan{from: s, to: e, pos: pos})
+		}
+	}
+	return out
 }
 
 // insertPositions: offset 0, every line start, before and after every ':' and '=', and every boundary
@@ -458,7 +536,7 @@ func regenerate(seed []byte, tier string, want int) (mutDesc, []byte, bool) {
 	var d mutDesc
 	var out []byte
 	found := false
-	enumerate(seed, tier, want, func(seq int, md mutDesc, data []byte) bool {
+	enumerate(seed, tier, want, nil, func(seq int, md mutDesc, data []byte) bool {
 		if seq == want {
 			d, out, found = md, append([]byte{}, data...), true
 			return false
